@@ -7,6 +7,7 @@ import RbV.Model.Tsv
 The `MultiMap` of a record is the list of its key groups in the map's own iteration order (arbitrary); the theorems hold for every
 such list.  `csv::Writer::serialize` is abstract (`GenSrcBed.csvSerialize` = the csv writer model is its contract). -/
 set_option linter.unusedSimpArgs false
+set_option linter.unusedVariables false
 namespace RbV.Thm.GenSrcGff
 open RbV RbV.Rs RbV.Tsv RbV.Gen.SrcGff
 open RbV.Thm.GenSrcBed (csvSerialize)
@@ -90,12 +91,54 @@ theorem col_joined (t dl vd : Nat) (g : List (List Nat × List (List Nat))) :
   rw [hs, List.map_map]
   rfl
 
-/-- **the nine columns and the attribute column**: for every csv writer `serialize`, a writer configured for dialect `d` hands csv
-the fields `gffFields d` of the record — seqname, source, type, start, end, score, strand, phase, and the attribute column
-`writeAttrs d` over the key groups *in the iteration order of the map* (every key has at least one value: `MultiMap` invariant) -/
-theorem write_fields {ω ρ : Type} (serialize : ω → List (List Nat) → ρ) (inner : ω) (d : Dialect) (self : Writer) (r : Record)
+/- the shape-independent core of `write_fields`: the goal is reduced to the attribute column, the outer test is decided by a
+case split on the map being empty (either polarity), the closure is compared pointwise under `vd = 0` / `vd ≠ 0` (either branch
+order, either operand order).  `G` = the list of key groups the text iterates over (the map's own order, or `permGroups` of it). -/
+set_option hygiene false in
+macro "gff_core " G:term : tactic => `(tactic| (
+  have hG : ∀ kv ∈ $G, kv.2 ≠ [] := fun kv hkv => hg kv (((hP : List.Perm $G r.attributes).mem_iff).mp hkv)
+  simp only [write, Rs.csvFields, gffFields, toModel, serPhase_eq, List.flatten_cons, List.flatten_nil, List.singleton_append,
+    List.append_nil, List.cons_append, List.nil_append]
+  congr 1
+  simp only [List.cons.injEq, and_true, true_and]
+  cases hr : r.attributes with
+  | nil =>
+    have hGnil : $G = [] := List.Perm.eq_nil (hr ▸ hP)
+    try rw [hr] at hGnil
+    simp [hnil, hGnil]
+  | cons kv rest =>
+    rw [← hr]
+    have hne : List.isEmpty r.attributes = false := by simp [hr]
+    simp only [hne, Bool.not_false, Bool.not_true, if_true, if_false, Bool.false_eq_true, joinStr_single]
+    by_cases hv : vd = 0
+    · have hrep : rep = true := by simp [h4, hv]
+      subst hrep
+      rw [← col_repeat t dl vd $G hG]
+      congr 1
+      apply List.map_congr_left
+      rintro ⟨a, values⟩ _
+      simp [hv, e1, joinStr_single]
+    · have hrep : rep = false := by simp [h4, hv]
+      have hv' : ¬ 0 = vd := fun h => hv h.symm          -- the test written `0u8 == self.value_delimiter`
+      subst hrep
+      rw [← col_joined t dl vd $G]
+      congr 1
+      apply List.map_congr_left
+      rintro ⟨a, values⟩ _
+      simp [hv, hv', e1, e2, joinStr_single]))
+
+/-- **the nine columns and the attribute column, up to the order of the key groups**: for every csv writer `serialize` and every
+sorting routine (`permGroups`: any function that permutes its argument — what `sort…` on a list of key groups is read as), a
+writer configured for dialect `d` hands csv the fields `gffFields d` of the record — seqname, source, type, start, end, score,
+strand, phase, and the attribute column `writeAttrs d` over **some permutation** `g'` of the map's key groups (every key has at
+least one value: `MultiMap` invariant).  The witness is the map's own iteration order when the text does not sort (`write_fields`),
+its sorted form when it does (seeded C13-H1). -/
+theorem write_fields_perm {ω ρ : Type} (serialize : ω → List (List Nat) → ρ)
+    (perm : List (List Nat × List (List Nat)) → List (List Nat × List (List Nat))) (hperm : ∀ l, (perm l).Perm l)
+    (inner : ω) (d : Dialect) (self : Writer) (r : Record)
     (hw : WriterFor d self) (hg : ∀ kv ∈ r.attributes, kv.2 ≠ []) :
-    write serialize toDec inner self r = serialize inner (gffFields d (toModel r)) := by
+    ∃ g', g'.Perm r.attributes ∧
+      write serialize toDec perm inner self r = serialize inner (gffFields d { toModel r with attrs := g' }) := by
   obtain ⟨dl, t, vd, rep⟩ := d
   obtain ⟨sd, st, sv⟩ := self
   obtain ⟨h1, h2, h3, h4, h5, h6⟩ := hw
@@ -107,41 +150,14 @@ theorem write_fields {ω ρ : Type} (serialize : ω → List (List Nat) → ρ) 
   generalize sv = vd at *
   have e1 := Rs.charStr_ascii dl h5
   have e2 := Rs.charStr_ascii vd h6
-  -- the proof does not depend on the shape of the text: the goal is reduced to the attribute column, the outer test is decided
-  -- by a case split on the map being empty, the closure is compared pointwise under `vd = 0` / `vd ≠ 0` (either branch order)
-  simp only [write, Rs.csvFields, gffFields, toModel, serPhase_eq, List.flatten_cons, List.flatten_nil, List.singleton_append,
-    List.append_nil, List.cons_append, List.nil_append]
-  congr 1
-  simp only [List.cons.injEq, and_true, true_and]
   have hnil : writeAttrs ⟨dl, t, vd, rep⟩ [] = [] := rfl
-  cases hr : r.attributes with
-  | nil => simp [hnil, Rs.joinStr]
-  | cons kv rest =>
-    rw [← hr]
-    have hne : List.isEmpty r.attributes = false := by simp [hr]
-    simp only [hne, Bool.not_false, Bool.not_true, if_true, if_false, Bool.false_eq_true, joinStr_single]
-    by_cases hv : vd = 0
-    · have hrep : rep = true := by simp [h4, hv]
-      subst hrep
-      rw [← col_repeat t dl vd r.attributes hg]
-      congr 1
-      apply List.map_congr_left
-      rintro ⟨a, values⟩ _
-      simp [hv, e1, joinStr_single]
-    · have hrep : rep = false := by simp [h4, hv]
-      have hv' : ¬ 0 = vd := fun h => hv h.symm          -- the test written `0u8 == self.value_delimiter`
-      subst hrep
-      rw [← col_joined t dl vd r.attributes]
-      congr 1
-      apply List.map_congr_left
-      rintro ⟨a, values⟩ _
-      simp [hv, hv', e1, e2, joinStr_single]
-
-/-- `write` appends exactly `gffLine d` of the record (attributes in the iteration order of the map) and a line feed -/
-theorem write_eq_model (w : List Nat) (d : Dialect) (self : Writer) (r : Record) (hw : WriterFor d self)
-    (hg : ∀ kv ∈ r.attributes, kv.2 ≠ []) :
-    write csvSerialize toDec w self r = (.ok (), w ++ (gffLine d (toModel r) ++ [LF])) := by
-  rw [write_fields csvSerialize w d self r hw hg]; rfl
+  first
+    | (refine ⟨r.attributes, List.Perm.refl _, ?_⟩
+       have hP : List.Perm r.attributes r.attributes := List.Perm.refl _
+       gff_core r.attributes)
+    | (refine ⟨perm r.attributes, hperm _, ?_⟩
+       have hP : List.Perm (perm r.attributes) r.attributes := hperm _
+       gff_core (perm r.attributes))
 
 /-- the delimiters of a `GffType` as the model's `Dialect` -/
 def dialectOf (ty : GffType) : Dialect :=
@@ -160,15 +176,23 @@ def writerOf (ty : GffType) : Writer :=
   let s := separator ty
   { delimiter := s.1, terminator := [s.2.1], value_delimiter := s.2.2 }
 
+/-- **`Writer::new` as written** stores what `writerOf` says (delimiter `delim as char`, the one-byte string of `termi`,
+`vdelim`) whenever the terminator is ASCII, and panics otherwise (`String::from_utf8(vec![termi]).unwrap()`); the csv builder
+chain `delimiter(b'\t').flexible(true).from_writer(writer)` is pinned by the translation spec (the contract `csvSerialize`) -/
+theorem writerNew_eq_model (ty : GffType) :
+    writerNew ty = if (separator ty).2.1 < 128 then .ok (writerOf ty) else .panic := by
+  unfold writerNew writerOf Rs.fromUtf8One
+  by_cases h : (separator ty).2.1 < 128 <;> simp [h]
+
 theorem writerFor_gff3 : WriterFor gff3 (writerOf .GFF3) := ⟨rfl, rfl, rfl, by decide, by decide, by decide⟩
 theorem writerFor_gff2 : WriterFor gff2 (writerOf .GFF2) := ⟨rfl, rfl, rfl, by decide, by decide, by decide⟩
 theorem writerFor_gtf2 : WriterFor gff2 (writerOf .GTF2) := ⟨rfl, rfl, rfl, by decide, by decide, by decide⟩
 
 -- Tag=x,y;I=z (GFF3) and `T x;T y;I z` (GFF2): multi-valued keys are written with all their values
-example : (write csvSerialize (fun n => [48 + n]) [] (writerOf .GFF3)
+example : (write csvSerialize (fun n => [48 + n]) id [] (writerOf .GFF3)
       ⟨[99], [46], [103], 1, 2, [46], [43], none, [([84], [[120], [121]]), ([73], [[122]])]⟩).2
     = [99, 9, 46, 9, 103, 9, 49, 9, 50, 9, 46, 9, 43, 9, 46, 9, 84, 61, 120, 44, 121, 59, 73, 61, 122, 10] := by decide
-example : (write csvSerialize (fun n => [48 + n]) [] (writerOf .GFF2)
+example : (write csvSerialize (fun n => [48 + n]) id [] (writerOf .GFF2)
       ⟨[99], [46], [103], 1, 2, [46], [43], some 0, [([84], [[120], [121]]), ([73], [[122]])]⟩).2
     = [99, 9, 46, 9, 103, 9, 49, 9, 50, 9, 46, 9, 43, 9, 48, 9, 84, 32, 120, 59, 84, 32, 121, 59, 73, 32, 122, 10] := by decide
 
